@@ -4,8 +4,12 @@ proof:          lean/PdshVerif/Props/C08.lean about the model Dsh/Exit.lean (_ex
                 exec_destroy, the -S loop, main's mapping) against the specification Dsh/ExitSpec.lean
 correspondence: (a) the static _extract_rc of the real dsh.c on generated lines, (b) the real dsh() with real
                 threads against a scripted rcmd layer (harness/exit_harness.c), (c) the real exec_destroy of
-                execcmd.c on real children, (d) the scratch-built pdsh binary with -R exec and a helper command;
-                each vs `pdshmodel exit model <variant>`
+                execcmd.c on real children, (d) the scratch-built pdsh binary with -R exec and a helper command,
+                (k) -k: which statement ends the run and what has become of the siblings (transport event log / start and
+                term traces of real commands) vs the transition system Dsh/ExitKill.lean, (m) a real in-band transport
+                module next to exec in one run, (r) one real command line per refusal path of Dsh/ExitRefuse.lean;
+                each vs `pdshmodel exit model <variant>`; the errx / exit call sites of opt.c and main.c are enumerated
+                by a generated probe (harness/consts/exitsites.c) and tied to the model by theorems
 oracle:         ExitSpec.admissible (`pdshmodel exit spec`) on the real process exit status of (b) and (d)
 """
 import concurrent.futures
@@ -14,6 +18,7 @@ import os
 import re
 import subprocess
 
+from vlib import exitkill, exitmixed, exitrefuse
 from vlib.common import HARNESS, LEAN_DIR, REPO, VERIF, hexs
 from vlib.seqrun import run_batch
 
@@ -28,7 +33,11 @@ MANIFEST = dict(
          "status per target in every schedule; with the option model of C18: pdcp/rpdcp exit 0, every refusal exits 1; with the "
          "relay model of C05/C06 and the cbuf model of C13): the status marker is requested exactly with -S/-k, without -S/-k exit 0, refused "
          "arguments exit 1, -S = max of the remote codes raised to 254 (order independent), 0 iff every command ran "
-         "and succeeded, marker extraction, abnormal termination non-zero, -k any failure non-zero; each proved for "
+         "and succeeded, marker extraction, abnormal termination non-zero, -k any failure non-zero (also as a transition system "
+         "over poll-loop iterations, `_die_if_signalled`, the teardown test and `_fwd_signal`: every schedule ends with the status "
+         "mainExit gives, the failing target's teardown IS the exit, the siblings that are signalled are exactly those inside "
+         "their poll loop), every refusal path of main.c / opt.c / module loading / dsh()'s prologue exits 1 (enumeration tied "
+         "to the call sites of the tree under check by a generated probe); each proved for "
          "the repaired variant with a kernel-checked counterexample for the unchanged code where that is false; the "
          "repaired model refines the specification for both status channels, and end to end through the relay model "
          "for every chunking of every host's stdout. The "
@@ -124,6 +133,10 @@ def systematic_scenarios():
                         hosts = [mk_host(chan, ("exited", 0), dok) for _ in range(3)]
                         hosts[pos] = mk_host(chan, bad, dbad)
                         out.append({"S": S, "k": k, "fanout": fanout, "cmdtmo": 0, "hosts": hosts})
+        if S or k:      # ONE LINE LONGER THAN THE RELAY BUFFER (131072 bytes) in front of the marker line: the status survives it
+            for o in (("exited", 3), ("killed", 9)):
+                out.append({"S": S, "k": k, "fanout": 32, "cmdtmo": 0,
+                            "hosts": [mk_host("inband", o, 0, out=b"x" * 140000 + b"\n"), mk_host("exec", ("exited", 0))]})
         for a in SYS_OUTCOMES[1:]:          # one channel each
             out.append({"S": S, "k": k, "fanout": 32, "cmdtmo": 0, "hosts": [mk_host("inband", a), mk_host("exec", ("exited", 0))]})
             out.append({"S": S, "k": k, "fanout": 32, "cmdtmo": 0, "hosts": [mk_host("exec", a), mk_host("inband", ("exited", 0))]})
@@ -502,7 +515,7 @@ def run_cancel(pdsh, helper, nhosts):
 # --------------------------------------------------------------------------- main
 def run(ctx):
     rng = ctx.rng
-    ctx.gen_consts(["dsh", "relay", "cbuf"])      # relay, cbuf: the end-to-end theorems go through Relay/Model.lean
+    ctx.gen_consts(["dsh", "relay", "cbuf", "exitsites"])      # relay, cbuf: the end-to-end theorems go through Relay/Model.lean
     ctx.lean_build([PROPS, "pdshmodel"])
     ctx.audit(PROPS)
     magic = rc_magic()
@@ -540,7 +553,13 @@ def run(ctx):
                    "(parallel: failing one first / last; fanout 1); canceled targets next to every outcome; every kind of overdue command "
                    "(idle / chatty x dies / traps TERM and exits 0 / 255); the same classes through the real binary; marker lines with the "
                    "marker at every position x boundary codes; (e) the command string dsh() hands to the transport (status marker requested "
-                   "exactly with -S / -k); "
+                   "exactly with -S / -k, whatever the default transport is called); (k) -k: mid-stream death, teardown test for an "
+                   "in-band code / out-of-band code / out-of-band signal / connect failure / code 128 (no signal), the failing target "
+                   "first / middle / last, siblings running / completed / not started, on the scripted transport (event log) and "
+                   "through the real binary (start / term traces); (m) a real in-band transport module next to exec as default and "
+                   "as per-target prefix, one line longer than the relay buffer before the marker; (r) one or more real command "
+                   "lines per refusal path of the model (environment, option values, user names, usage, host words, target file, "
+                   "transport, module loading, program name, opt_verify, dsh()'s prologue) with a trace file for \"nothing contacted\"; "
                    "non-trivial = at least one target does not simply succeed (non-zero code, signal, failure, marker with "
                    "preceding text or later lines); distinct = distinct case text"}
     dist = {"xrc": 0, "xrc_with_marker": 0, "xd": 0, "dsh_domain": 0, "dsh_raw": 0, "cli": 0, "cli_refused": 0,
@@ -593,8 +612,12 @@ def run(ctx):
         ucmds = [u for u, _ in safe] + [b"cmd", b"ls -l /tmp", b"a;b", b"x" * 3000, b"q" + magic + b"1"] + \
                 [gen_text(rng, rng.randrange(1, 40), b"abc xyz;$?'\"|&01") for _ in range(10 if ctx.quick() else 300)]
         cops = ["cmd %d %d %s" % (S, k, hexs(u)) for u in ucmds for S, k in ((0, 0), (1, 0), (0, 1), (1, 1))]
+        # the same whatever the DEFAULT transport is called: the target at hand is served by the (scripted) in-band transport,
+        # as a `-w other:host` target of a `-R exec` run is; its status can only come back through the marker
+        cops += ["cmd %d %d %s %s" % (S, k, hexs(u), R) for u, _ in safe[:4] for S, k in ((1, 0), (0, 1), (0, 0))
+                 for R in ("exec", "rsh", "ssh", "nosuch")]
         impl = run_batch([exe], [[o] for o in cops], env=env, timeout=300)
-        mod = ctx.model("exit", "".join(o + "\n" for o in cops), args=["model", bits])
+        mod = ctx.model("exit", "".join(" ".join(o.split(" ")[:4]) + "\n" for o in cops), args=["model", bits])
         for o, (ans, crash), m in zip(cops, impl, mod):
             cov["evaluations"] += 1
             dist["sent_command"] = dist.get("sent_command", 0) + 1
@@ -630,6 +653,9 @@ def run(ctx):
                   ["e1", "e2", "e3", "e127", "e128", "e254", "e255", "s9", "s15", "s11"] + ["e%d" % rng.randrange(1, 256) for _ in range(10)])]
         with concurrent.futures.ThreadPoolExecutor(max_workers=8) as ex:
             limpl = list(ex.map(lambda h: run_batch([exe], [["xd " + h]], env=env, timeout=60)[0], lates))
+        for i, (h, (ans, crash)) in enumerate(zip(lates, limpl)):      # a time-out alone is tried once more (loaded machine)
+            if crash is not None and "TIMEOUT" in crash:
+                limpl[i] = run_batch([exe], [["xd " + h]], env=env, timeout=90)[0]
         lmod = ctx.model("exit", "".join("xd %s\n" % h.split("_")[1] for h in lates), args=["model", bits])
         for h, (ans, crash), m in zip(lates, limpl, lmod):
             cov["evaluations"] += 1
@@ -739,6 +765,11 @@ def run(ctx):
             dist["dsh_canceled"] = dist.get("dsh_canceled", 0) + 1
             distinct.add(("dsh", l))
             judge_canceled(ctx, l, ans, crash, m)
+        # ---- (k) -k: which statement ends the run, with which status, and what has become of the siblings: the real dsh()
+        # on the scripted transport with its event log vs the transition system Dsh/ExitKill.lean (vlib/exitkill.py)
+        kscn = exitkill.systematic(magic, real_xd) + \
+            [exitkill.random_scenario(rng, magic, real_xd) for _ in range(6 if ctx.quick() else 150)]
+        exitkill.run_scripted(ctx, exe, env, kscn, bits, dist, cov, distinct)
         # ---- (d) the real binary ----------------------------------------------------------------
         helper = os.path.join(ctx.scratch, "exit_helper")
         hb = subprocess.run(["gcc", "-O1", "-w", os.path.join(HARNESS, "exit_helper.c"), "-o", helper])
@@ -781,6 +812,13 @@ def run(ctx):
                 if sp != "ok":
                     bad.append((s, " ".join(av), ml_, "exit %d" % rc, spl, exit_of(m) == rc))
             report_bad(ctx, bad, bits, "pdsh")
+            # a REAL in-band transport (harness/exit_inband_mod.c) next to exec, both as default and as per-target prefix;
+            # a line longer than the relay buffer in front of the marker line (vlib/exitmixed.py)
+            exitmixed.run(ctx, repo, pdsh, helper, bits, magic, dist, cov, distinct, report_bad)
+            # every refusal path of main / opt.c / module loading / dsh()'s prologue (vlib/exitrefuse.py)
+            exitrefuse.run(ctx, repo, bits, dist, cov, distinct)
+            # -k through the real binary: the siblings leave start / term traces
+            exitkill.run_cli(ctx, pdsh, helper, bits, magic, dist, cov, distinct)
             # F08-CANCELED on the real binary: fanout 1, first target sleeps, ^C then ^Z within a second cancels the
             # pending targets; their command never runs, yet -S exits 0
             for trial in range(1 if ctx.quick() else 3):
@@ -819,12 +857,16 @@ def run(ctx):
                      "remote shell report 128+s",
                      "stdout lines shorter than the 131072-byte cbuf (longer lines: C05)",
                      "glibc atoi = (int) strtol, strstr, Linux wait-status encoding as modelled in Base/CInt.lean, Dsh/Exit.lean",
-                     "under -k the generator places no output after a marker > 128 (the mid-stream check is time dependent)",
+                     "one marker line per target (with two, the exit status of a -k run depends on how the output is cut into "
+                     "poll-loop iterations: C08.kill_early_death_witness); in the -k scenarios failures are 400 ms apart from the "
+                     "siblings' own events, a mismatch is re-run once before it is reported",
                      "cancellation by ^C^Z (DSH_CANCELED) is modelled (witness theorem) but not driven on the real code"],
         trusted_base=["Lean 4.33 kernel", "axioms: propext, Classical.choice, Quot.sound at most (audited per theorem)",
                       "hand-written model Dsh/Exit.lean tied to dsh.c/execcmd.c/main.c by differential execution",
                       "Gen/Dsh.lean regenerated from /repo (RC_MAGIC, RC_FAILED)",
-                      "harness/exit_harness.c (scripted rcmd layer), exit_exec.c, exit_helper.c, vlib/, gcc, ASan/UBSan"],
+                      "harness/exit_harness.c (scripted rcmd layer with event log), exit_exec.c, exit_helper.c, exit_inband_mod.c "
+                      "(in-band transport module), harness/consts/exitsites.c (call-site probe: Gen/Exitsites.lean), "
+                      "vlib/exitkill.py exitmixed.py exitrefuse.py, gcc, ASan/UBSan"],
         checker_cmd="lake build PdshVerif.Props.C08 && #print axioms on every theorem of Props/C08.lean")
 
 
@@ -869,7 +911,19 @@ def replay(ctx, cov, exe, repo, magic, bits, env):
         ctx.log("replay file names no input (theorem/correspondence only): running the whole check instead")
         ctx.replay = None
         return run(ctx)
-    if "line_hex" in case:
+    if "mixed_case" in case:
+        exitmixed.run(ctx, repo, pdsh, helper, bits, magic, {}, cov, set(), report_bad, only=exitmixed.case_from_json(case["mixed_case"]))
+    elif "refusal_label" in case:
+        exitrefuse.run(ctx, repo, bits, {}, cov, set(), only=case["refusal_label"])
+    elif "k_scn" in case:
+        exitkill.run_scripted(ctx, exe, env, [exitkill.scn_from_json(case["k_scn"])], bits, {}, cov, set())
+    elif "k_case" in case:
+        c = exitkill.scn_from_json(case["k_case"])
+        for attempt in (0, 1):
+            argv, obs = exitkill.run_cli_case(pdsh, helper, ctx.scratch, attempt, c)
+            if exitkill.judge_cli(ctx, c, argv, obs, bits, report=(attempt == 1)) != "retry":
+                break
+    elif "line_hex" in case:
         l = bytes.fromhex(case["line_hex"]) if case["line_hex"] != "-" else b""
         (ans, crash), = run_batch([exe], [["xrc " + hexs(l)]], env=env)
         m = ctx.model("exit", "xrc %s\n" % hexs(l), args=["model", bits])[0]
@@ -885,7 +939,7 @@ def replay(ctx, cov, exe, repo, magic, bits, env):
     elif str(case.get("op", "")).startswith("cmd "):
         o = case["op"]
         (ans, crash), = run_batch([exe], [[o]], env=env, timeout=60)
-        m = ctx.model("exit", o + "\n", args=["model", bits])[0]
+        m = ctx.model("exit", " ".join(o.split(" ")[:4]) + "\n", args=["model", bits])[0]
         ctx.log("replay: %s impl `%s` model `%s`" % (o[:80], ans, m))
         if crash is not None or not ans:
             ctx.offender("crash", "dsh() harness aborts on %s" % o[:80], case)
@@ -1017,7 +1071,8 @@ def report_bad(ctx, bad, bits, where):
         ctx.offender("%s:needs-fix:%s" % (flags, fixset),
                      "%s with flags -%s and outcomes [%s] ends with `%s`, which the specification does not admit "
                      "(smallest set of proposed repairs that makes it admissible: %s)" % (where, flags, outs, ans, fixset),
-                     {"where": where, "case": h, "model_op": m_in, "impl": ans, "spec_query": spl})
+                     dict({"where": where, "case": h, "model_op": m_in if len(m_in) < 4000 else m_in[:300] + "...", "impl": ans,
+                           "spec_query": spl}, **s.get("extra", {})))
 
 
 def exhaustive_vectors():
